@@ -301,6 +301,73 @@ func guardedByS(fn *ssa.Function, at *ssa.BasicBlock, subj ssa.Value, mk Subject
 			}
 		}
 	}
+	// The subject is one result of a helper that also answers a flag or a status ("op, ip, st := begin(...);
+	// if st != OK { return }"): on the side where the caller saw the good answer, the subject is what the helper
+	// returned with that answer - the guard may have been established inside the helper, on the returned value.
+	if ex, ok := stripConv(subj).(*ssa.Extract); ok {
+		if call, ok := ex.Tuple.(*ssa.Call); ok {
+			h := staticCallee(call)
+			if h != nil && IsRepoFunc(h) && h.Blocks != nil && h != fn {
+				for _, br := range branches(fn) {
+					var other *ssa.Extract
+					type cls struct {
+						class int
+						succ  *ssa.BasicBlock
+					}
+					var classes []cls
+					switch {
+					case br.Cond.Op == token.ILLEGAL:
+						if e2, ok := stripConv(br.Cond.X).(*ssa.Extract); ok && e2.Tuple == ex.Tuple {
+							other = e2
+							classes = []cls{{1, br.True}, {0, br.False}}
+						}
+					case br.Cond.Op == token.EQL || br.Cond.Op == token.NEQ:
+						e2, ok := stripConv(br.Cond.X).(*ssa.Extract)
+						k, isk := constInt(br.Cond.Y)
+						if ok && e2.Tuple == ex.Tuple && isk && k == 0 && isNamedStatus(e2.Type()) {
+							other = e2
+							if br.Cond.Op == token.EQL {
+								classes = []cls{{2, br.True}}
+							} else {
+								classes = []cls{{2, br.False}}
+							}
+						}
+					}
+					if other == nil || other.Index == ex.Index {
+						continue
+					}
+					for _, c := range classes {
+						if !edgeDominates(br.Block, c.succ, at) {
+							continue
+						}
+						all, n := true, 0
+						for _, b := range h.Blocks {
+							r, ok := b.Instrs[len(b.Instrs)-1].(*ssa.Return)
+							if !ok || len(r.Results) <= other.Index || len(r.Results) <= ex.Index {
+								continue
+							}
+							inClass := true // an answer that is not a constant counts for every class
+							if bv, isb := constBool(r.Results[other.Index]); isb {
+								inClass = (c.class == 1 && bv) || (c.class == 0 && !bv)
+							} else if k, isk := constInt(r.Results[other.Index]); isk {
+								inClass = c.class == 2 && k == 0
+							}
+							if !inClass {
+								continue
+							}
+							n++
+							if !guardedByS(h, b, r.Results[ex.Index], mk, depth+1, fmk...) {
+								all = false
+							}
+						}
+						if all && n > 0 {
+							return true
+						}
+					}
+				}
+			}
+		}
+	}
 	return false
 }
 
